@@ -388,6 +388,8 @@ class Body:
                     continue
                 rv = s['rv']
                 if rv['k'] == 'ref' and rv['mut'] and not rv['place']['p']:
+                    if 'MutexGuard' in self.raw['locals'][rv['place']['l']]['ty']:
+                        continue      # writes go THROUGH a lock guard, its identity (the acquisition) does not change
                     borrow[s['place']['l']] = rv['place']['l']
         changed = True
         while changed:
@@ -470,6 +472,73 @@ class Body:
                     dq.append(p)
         return found, entry
 
+    def dominators(self):
+        """idom-style dominator sets (block -> set of dominating blocks) over live normal edges"""
+        if getattr(self, '_dom', None) is None:
+            live = sorted(self.live_blocks())
+            dom = {b: set(live) for b in live}
+            dom[0] = {0}
+            changed = True
+            while changed:
+                changed = False
+                for b in live:
+                    if b == 0:
+                        continue
+                    ps = [p for (p, _) in self.preds(b) if p in dom]
+                    if not ps:
+                        continue
+                    new = set.intersection(*[dom[p] for p in ps]) | {b}
+                    if new != dom[b]:
+                        dom[b] = new
+                        changed = True
+            self._dom = dom
+        return self._dom
+
+    def defs_via_edge(self, local, point, P, lab):
+        """definitions of `local` that reach `point` along paths that start with the edge (P, lab) and do not come back to P.
+        A path on which nothing redefines the local contributes the marker 'atP'. Returns a set (empty: point unreachable)."""
+        ds = self.defs().get(local, [])
+        by_block = defaultdict(list)
+        for d in ds:
+            by_block[d[0]].append(d)
+        for b in by_block:
+            by_block[b].sort(key=lambda d: d[1])
+        tgt = [t for (t, l) in self.succ(P) if l == lab]
+        if not tgt:
+            return set()
+        (ub, ui) = point
+        state = defaultdict(set)     # block -> set of current defs at block entry
+        work = deque()
+        for t in tgt:
+            if not self.is_cleanup(t):
+                state[t].add('atP')
+                work.append(t)
+        result = set()
+        seen_pairs = set()
+        while work:
+            b = work.popleft()
+            for cur in list(state[b]):
+                if (b, cur) in seen_pairs:
+                    continue
+                seen_pairs.add((b, cur))
+                out = cur
+                if b == ub:
+                    before = [d for d in by_block.get(b, []) if d[1] < ui]
+                    result.add(before[-1][:3] if before else cur)
+                    # the path may continue and come back (loops) but the first arrival is what matters for a join value;
+                    # still propagate for completeness
+                if b in by_block:
+                    out = by_block[b][-1][:3]
+                if b == P:
+                    continue
+                for (t, l) in self.succ(b):
+                    if self.is_cleanup(t):
+                        continue
+                    if out not in state[t]:
+                        state[t].add(out)
+                        work.append(t)
+        return result
+
     @property
     def origin(self):
         if self._origin is None:
@@ -481,7 +550,9 @@ class Body:
 class Facts:
     def __init__(self, doc):
         self.doc = doc
-        self.bodies = {k: Body(k, v, self) for k, v in doc['bodies'].items()}
+        from . import inline
+        raw_bodies, self.inlined = inline.apply(doc)
+        self.bodies = {k: Body(k, v, self) for k, v in raw_bodies.items()}
         self.adts = doc['adts']
         self.impls = doc['impls']
         self.consts = doc['consts']
@@ -520,7 +591,14 @@ class Facts:
         out = [body]
         i = 0
         while i < len(out):
-            out.extend(self.children.get(out[i].name, []))
+            for c in self.children.get(out[i].name, []):
+                if c not in out:
+                    out.append(c)
+            # closures created by statements of this body (they may come from an inlined helper)
+            for (bb, j, s) in out[i].assigns(lambda s: s['rv']['k'] == 'aggr' and 'closure' in s['rv']):
+                c = self.bodies.get(s['rv']['closure'])
+                if c is not None and c not in out:
+                    out.append(c)
             i += 1
         return out
 
@@ -536,7 +614,12 @@ class Facts:
             self._closure_sites = {}
             for b in self.bodies.values():
                 for (bb, i, s) in b.assigns(lambda s: s['rv']['k'] == 'aggr' and 'closure' in s['rv']):
-                    self._closure_sites[s['rv']['closure']] = (b, bb, i, s)
+                    cn = s['rv']['closure']
+                    cb = self.bodies.get(cn)
+                    # prefer the creation site in the body the closure was written in (copies exist where helpers were inlined)
+                    if cn in self._closure_sites and cb is not None and self._closure_sites[cn][0].name == cb.parent:
+                        continue
+                    self._closure_sites[cn] = (b, bb, i, s)
         return self._closure_sites.get(closure_name)
 
     # call graph inside the crate -------------------------------------------------------------
@@ -699,6 +782,8 @@ class Origin:
             for d in pbody.defs().get(o['place']['l'], []):
                 if d[2] == 'whole' and d[3]['rv']['k'] == 'ref' and d[3]['rv']['mut'] and not d[3]['rv']['place']['p']:
                     l = d[3]['rv']['place']['l']
+                    if 'MutexGuard' in pbody.raw['locals'][l]['ty']:
+                        break
                     return ('var', pbody.name, l, pbody.local_name(l))
         return pbody.origin.operand(o, (bb, i))
 
@@ -745,7 +830,9 @@ class Origin:
             if len(uniq) == 1:
                 t = uniq[0]
             else:
-                t = ('var', body.name, l, body.local_name(l))
+                t = self._ite(l, point, defs, entry and is_arg, depth)
+                if t is None:
+                    t = ('var', body.name, l, body.local_name(l))
             if field is None:
                 return t
             return None
@@ -753,6 +840,61 @@ class Origin:
         t = self._def_term(l, d, depth)
         if field is None:
             return t
+        return None
+
+    def _ite(self, l, point, defs, with_param, depth):
+        """value of a local with several reaching definitions that are selected by ONE switch: ('ite', literal, v1, v2)"""
+        body = self.body
+        dom = body.dominators()
+        U = point[0]
+        if U not in dom:
+            return None
+        cands = sorted(dom[U], key=lambda b: -len(dom.get(b, ())))   # nearest dominators first
+        defset = set(d[:3] for d in defs)
+        bykey = dict((d[:3], d) for d in body.defs().get(l, []))
+        for P in cands:
+            t = body.term(P)
+            if not t or t['k'] != 'switch':
+                continue
+            if P == U and point[1] <= len(body.stmts(P)):
+                continue
+            groups = {}
+            for (tb, lab) in body.succ(P):
+                if body.is_cleanup(tb):
+                    continue
+                R = body.defs_via_edge(l, point, P, lab)
+                if R:
+                    groups[lab] = R
+            if len(groups) < 2 or not all(len(R) == 1 for R in groups.values()):
+                continue
+            vals = {}
+            for lab, R in groups.items():
+                vals.setdefault(list(R)[0], []).append(lab)
+            if len(vals) != 2:
+                continue
+            covered = set(v for v in vals if v != 'atP')
+            if not covered <= defset:
+                continue
+            (k1, labs1), (k2, labs2) = sorted(vals.items(), key=lambda kv: repr(kv[0]))
+            # prefer to express the condition on the side with a single edge
+            if len(labs1) > 1 and len(labs2) == 1:
+                (k1, labs1), (k2, labs2) = (k2, labs2), (k1, labs1)
+            if len(labs1) != 1:
+                lits = [edge_literal(body, P, lab) for lab in labs1]
+                if all(x and x[0] == 'in' for x in lits) and len(set(x[1] for x in lits)) == 1:
+                    lit = ('in', lits[0][1], frozenset().union(*[x[2] for x in lits]))
+                else:
+                    continue
+            else:
+                lit = edge_literal(body, P, labs1[0])
+            if lit is None:
+                continue
+            def val(k):
+                if k == 'atP':
+                    return self.local(l, body.term_point(P), depth + 1)
+                return self._def_term(l, bykey[k], depth + 1)
+            v1, v2 = val(k1), val(k2)
+            return mk_ite(lit, v1, v2)
         return None
 
     def _param(self, l):
@@ -866,8 +1008,62 @@ class Origin:
             return ('cmp', PARTIALORD_CALLS[callee], args[0], args[1])
         if callee == 'std::ops::Try::branch' and args:
             return ('try', args[0])
+        if callee in ('std::ops::Fn::call', 'std::ops::FnMut::call_mut', 'std::ops::FnOnce::call_once') and len(args) == 2 and \
+                isinstance(args[0], tuple) and args[0] and args[0][0] == 'closure' and args[0][1] in self.facts.bodies and depth < 40:
+            # a local closure that is called directly: its (single, loop-free) return term with the parameters substituted
+            cb = self.facts.bodies[args[0][1]]
+            if cb.nb <= 16 and not cb.back_edges():
+                rets = cb.return_blocks()
+                if len(rets) == 1:
+                    rt = cb.origin.place({'l': 0, 'p': []}, cb.term_point(rets[0]))
+                    actual = args[1][1] if isinstance(args[1], tuple) and args[1] and args[1][0] == 'tuple' else ()
+                    def sub(x):
+                        if isinstance(x, tuple):
+                            if x and x[0] == 'param' and x[1] == cb.name and 1 <= x[2] <= len(actual):
+                                return actual[x[2] - 1]
+                            return tuple(sub(y) for y in x)
+                        return x
+                    if not contains(rt, lambda x: isinstance(x, tuple) and x and x[0] in ('var', 'unknown')):
+                        return sub(rt)
         site = None if is_pure(callee) else (self.body.name, point[0])
         return ('call', callee, args, site)
+
+
+def mk_ite(lit, v1, v2):
+    if v1 == v2:
+        return v1
+    atoms = lit_atoms(lit)
+    if len(atoms) == 1 and atoms[0][0] == 'cmp':
+        _, a, b, S = atoms[0]
+        for (x, y, rel) in ((a, b, S), (b, a, frozenset({'<': '>', '>': '<', '=': '='}[c] for c in S))):
+            # value x when x ? y (rel), y otherwise
+            if v1 == x and v2 == y:
+                if rel and rel <= frozenset('<='):
+                    return mk_minmax('min', x, y)
+                if rel and rel <= frozenset('>='):
+                    return mk_minmax('max', x, y)
+            # value y when x ? y, x otherwise
+            if v1 == y and v2 == x:
+                if rel and rel <= frozenset('<='):
+                    return mk_minmax('max', x, y)
+                if rel and rel <= frozenset('>='):
+                    return mk_minmax('min', x, y)
+    if is_const(v1, True) and is_const(v2, False) and lit[0] in ('T', 'F'):
+        return lit[1] if lit[0] == 'T' else mk_not(lit[1])
+    if is_const(v1, False) and is_const(v2, True) and lit[0] in ('T', 'F'):
+        return mk_not(lit[1]) if lit[0] == 'T' else lit[1]
+    return ('ite', lit, v1, v2)
+
+
+def cases(t, conds=()):
+    """flatten nested ite terms: [(tuple of literals, leaf term)]"""
+    if isinstance(t, tuple) and t and t[0] == 'ite':
+        return cases(t[2], conds + (t[1],)) + cases(t[3], conds + (('not', t[1]),))
+    return [(conds, t)]
+
+
+def leaves(t):
+    return [v for (_, v) in cases(t)]
 
 
 def mk_not(a):
@@ -884,6 +1080,8 @@ def mk_not(a):
 
 def simplify_field(t, name, adt):
     if isinstance(t, tuple):
+        if t[0] == 'ite':
+            return mk_ite(t[1], simplify_field(t[2], name, adt), simplify_field(t[3], name, adt))
         if t[0] == 'aggr':
             for (f, v) in t[3]:
                 if f == name:
@@ -1022,6 +1220,7 @@ def show(t, depth=0):
     if k == 'upd': return '%s{%s := %s}' % (s(t[1]), '.'.join(t[2]), s(t[3]))
     if k == 'var': return 'var(%s)' % (t[3] or '_%d' % t[2])
     if k == 'try': return 'try(%s)' % s(t[1])
+    if k == 'ite': return 'ite(%s ? %s : %s)' % ([(a[0],) + tuple(show(x, depth + 1) if isinstance(x, tuple) else x for x in a[1:]) for a in lit_atoms(t[1])], s(t[2]), s(t[3]))
     if k == 'ovf': return 'ovf(%s)' % s(t[1])
     if k == 'unknown': return '?%s' % t[1]
     return repr(t)
@@ -1072,7 +1271,21 @@ def lit_atoms(lit):
     if lit is None:
         return []
     k = lit[0]
-    if k in ('in', 'eqc', 'nec'):
+    if k == 'not':
+        inner = lit[1]
+        if inner[0] == 'T':
+            return lit_atoms(('F', inner[1]))
+        if inner[0] == 'F':
+            return lit_atoms(('T', inner[1]))
+        return []
+    if k == 'in':
+        t = lit[1]
+        if isinstance(t, tuple) and t and t[0] == 'call' and t[1] in ('std::cmp::Ord::cmp',) and len(t[2]) == 2:
+            m = {'Less': '<', 'Equal': '=', 'Greater': '>'}
+            if all(n in m for n in lit[2]):
+                return [('cmp', t[2][0], t[2][1], frozenset(m[n] for n in lit[2]))]
+        return [lit[:3]]
+    if k in ('eqc', 'nec'):
         return [lit]
     t = lit[1]
     pos = (k == 'T')
@@ -1095,6 +1308,22 @@ def _atoms(t, pos):
             return _atoms(t[2], False) + _atoms(t[3], False)
         if t[0] == 'const' and isinstance(t[1], bool):
             return [('const', t[1] == pos)]
+        if t[0] == 'ite':
+            # boolean if-then-else:  T(ite(c, X, false)) = c & X ;  F(ite(c, true, X)) = !c & !X ; ...
+            c, a, b = t[1], t[2], t[3]
+            if pos:
+                if is_const(b, False):
+                    return lit_atoms(c) + _atoms(a, True)
+                if is_const(a, False):
+                    return lit_atoms(('not', c)) + _atoms(b, True)
+            else:
+                if is_const(a, True):
+                    return lit_atoms(('not', c)) + _atoms(b, False)
+                if is_const(b, True):
+                    return lit_atoms(c) + _atoms(a, False)
+            return []
+        if t[0] == 'cmp' and False:
+            pass
     return [('T' if pos else 'F', t)]
 
 
